@@ -1,6 +1,6 @@
 """C15 — kernel smoothing is a renormalised local weighted mean
 (tracklib/core/operators.py Filter.execute, core/kernel.py Kernel.toSlidingWindow, algo/filtering.py filter_seq,
-Track.smooth)."""
+Track.smooth, core/track_collection.py TrackCollection.smooth)."""
 import math, itertools
 from fractions import Fraction
 from engine import Prop, fbits, bitsf, ratstr, tok_list, untok, close
@@ -1953,6 +1953,12 @@ class P(Prop):
     def compare(self, case, impl_out, model_out):
         if case["kind"] == "coll":
             return self.coll_compare(case, impl_out, model_out)
+        if case["kind"] == "extseq" and "err" not in impl_out and "err" not in model_out:
+            # what filter_seq leaves in the caller's weight list is the library's business (the model divides it by its total at every
+            # dimension, as the code does today; the in-place normalisation itself is compared at the level of Filter.execute, stream 'ext'):
+            # the tracks are compared, `kafter` is kept in the outputs for the record only
+            impl_out = {k: v for k, v in impl_out.items() if k != "kafter"}
+            model_out = {k: v for k, v in model_out.items() if k != "kafter"}
         if case["kind"] == "session" and "steps" in impl_out and "steps" in model_out:
             for i, (a, b) in enumerate(zip(impl_out["steps"], model_out["steps"])):
                 bad = self.compare_one(a, b)
